@@ -31,7 +31,7 @@ type c05Case struct {
 	Info     *webdav.FileInfo `json:"-"`
 }
 
-var c05Endpoints = []string{"http://h", "http://h/", "http://h/pre", "http://h/pre/", "http://h/p q/"}
+var c05Endpoints = []string{"http://h", "http://h/", "http://h/pre", "http://h/pre/", "http://h/p q/", "http://user:pw@h:8080/pre/"}
 
 func c05Base(endpoint string) string {
 	i := strings.Index(endpoint[7:], "/")
@@ -140,6 +140,19 @@ func c05JudgeMem(c c05Case) (clause, detail string) {
 	cl, err := webdav.NewClient(w.Client(), c.Endpoint)
 	if err != nil {
 		return "client", err.Error()
+	}
+	if strings.Contains(c.Endpoint, "user:pw@") {
+		// credentials and port given in the endpoint URL accompany every request
+		defer func() {
+			if clause != "" {
+				return
+			}
+			for i, a := range w.Auths {
+				if a != "Basic dXNlcjpwdw==" || w.Targets[i] != "http://h:8080" {
+					clause, detail = "endpoint-credentials-or-authority-lost", fmt.Sprintf("request %d went to %s with Authorization %q", i, w.Targets[i], a)
+				}
+			}
+		}()
 	}
 	ctx := context.Background()
 	full := base + "/" + c.Name
